@@ -70,7 +70,9 @@ def canon(obj, _depth=0):  # pylint: disable=too-many-return-statements,too-many
     # library vectors: by items (their bookkeeping fields are checked separately by C12)
     from cryptoparser.common.base import ArrayBase
     if isinstance(obj, ArrayBase):
-        return ('vec', type(obj).__name__, tuple(canon(item, _depth + 1) for item in obj))
+        # the byte counter is compared by the class's own __eq__, so it is part of the object's state
+        return ('vec', type(obj).__name__, tuple(canon(item, _depth + 1) for item in obj),
+                getattr(obj, '_items_size', None))
     if isinstance(obj, (list, tuple)):
         return ('seq', tuple(canon(item, _depth + 1) for item in obj))
     if isinstance(obj, (set, frozenset)):
